@@ -7,8 +7,7 @@
  * lookup/removal/re-prioritisation by key affect exactly that entry; dequeue copies the entry to
  * slot 0; growth may move the whole array - is what this stub implements, in the simplest way that
  * keeps the REAL memory layout usable by the header inlines and by code that indexes hp->heap
- * directly: heap[1..count] is kept SORTED under hp->heap_compare (a sorted array is a valid binary
- * heap, minimum at index 1), heap[0] is the dequeue/reprioritise slot, and on enqueue the array may
+ * directly: heap[1] is kept a MINIMUM under hp->heap_compare, heap[2..count] hold the other entries, heap[0] is the dequeue/reprioritise slot, and on enqueue the array may
  * be reallocated (free + malloc) whenever the harness says so (CMV_HH_MAY_MOVE), which is how the
  * real structure invalidates pointers into it when it doubles.
  *
@@ -42,7 +41,7 @@ void cmi_hashheap_initialize(struct cmi_hashheap *hp, uint16_t hexp, cmi_heap_co
     hp->heap_compare = cmp ? cmp : cmv_hh_default_order;
     hp->heap = malloc((CMV_HH_CAP + 2u) * sizeof(struct cmi_heap_tag));
     hp->hash_map = NULL;   /* never dereferenced by the layers above */
-    for (unsigned i = 0; i < CMV_HH_CAP + 2u; i++) { hp->heap[i].key = 0u; hp->heap[i].item[0] = hp->heap[i].item[1] = hp->heap[i].item[2] = hp->heap[i].item[3] = NULL; hp->heap[i].dsortkey = 0.0; hp->heap[i].isortkey = 0; hp->heap[i].hash_index = 0u; }
+    hp->heap[0].key = 0u;        /* the other slots are never read beyond heap_count */
 }
 void cmi_hashheap_terminate(struct cmi_hashheap *hp)
 {
@@ -67,25 +66,43 @@ uint64_t cmi_hash_find_index(const struct cmi_hashheap *hp, uint64_t key)
     return r;
 }
 
-static void cmv_hh_insert_sorted(struct cmi_hashheap *hp, const struct cmi_heap_tag *e)
-{
-    /* position = 1 + number of entries that are not after e (stable: behind equals) */
-    uint64_t pos = 1u;
-    for (uint64_t c = 1u; c <= CMV_HH_CAP; c++) if (c <= hp->heap_count && !(*hp->heap_compare)(e, &hp->heap[c])) pos = c + 1u;
-    for (uint64_t c = CMV_HH_CAP; c >= 1u; c--) if (c >= pos && c <= hp->heap_count) hp->heap[c + 1u] = hp->heap[c];
-    for (uint64_t c = 1u; c <= CMV_HH_CAP + 1u; c++) if (c == pos) hp->heap[c] = *e;
-    hp->heap_count++;
-}
-static void cmv_hh_delete_at(struct cmi_hashheap *hp, uint64_t idx)
-{
-    for (uint64_t c = 1u; c <= CMV_HH_CAP; c++) if (c >= idx && c < hp->heap_count) hp->heap[c] = hp->heap[c + 1u];
-    hp->heap_count--;
-}
 static struct cmi_heap_tag *cmv_hh_at(const struct cmi_hashheap *hp, uint64_t idx)
 {
     struct cmi_heap_tag *r = &hp->heap[0];
     for (uint64_t c = 1u; c <= CMV_HH_CAP; c++) if (c == idx) r = &hp->heap[c];
     return r;
+}
+
+/* Layout kept by the stub: heap[1] is a minimum under the configured order, heap[2..count] hold the
+ * other entries in no particular order (the layers above only rely on "front = minimum" and on
+ * key lookup; a payload stays attached to its key).  Few struct moves per operation. */
+static void cmv_hh_fix_front(struct cmi_hashheap *hp)
+{
+    /* bring a minimum to index 1 by one swap */
+    uint64_t m = 1u;
+    for (uint64_t c = 2u; c <= CMV_HH_CAP; c++) if (c <= hp->heap_count && (*hp->heap_compare)(&hp->heap[c], cmv_hh_at(hp, m))) m = c;
+    if (m != 1u && hp->heap_count >= 2u) {
+        const struct cmi_heap_tag t = hp->heap[1];
+        for (uint64_t c = 2u; c <= CMV_HH_CAP; c++) if (c == m) { hp->heap[1] = hp->heap[c]; hp->heap[c] = t; }
+    }
+}
+static void cmv_hh_insert_sorted(struct cmi_hashheap *hp, const struct cmi_heap_tag *e)
+{
+    hp->heap_count++;
+    for (uint64_t c = 1u; c <= CMV_HH_CAP; c++) if (c == hp->heap_count) hp->heap[c] = *e;
+    if (hp->heap_count >= 2u && (*hp->heap_compare)(e, &hp->heap[1])) {
+        const struct cmi_heap_tag t = hp->heap[1];
+        hp->heap[1] = *e;
+        for (uint64_t c = 2u; c <= CMV_HH_CAP; c++) if (c == hp->heap_count) hp->heap[c] = t;
+    }
+}
+static void cmv_hh_delete_at(struct cmi_hashheap *hp, uint64_t idx)
+{
+    /* the last entry fills the hole; the front is re-established if it was the one removed */
+    const struct cmi_heap_tag last = *cmv_hh_at(hp, hp->heap_count);
+    for (uint64_t c = 1u; c <= CMV_HH_CAP; c++) if (c == idx && c < hp->heap_count) hp->heap[c] = last;
+    hp->heap_count--;
+    if (idx == 1u) cmv_hh_fix_front(hp);
 }
 
 uint64_t cmi_hashheap_enqueue(struct cmi_hashheap *hp, void *pl1, void *pl2, void *pl3, void *pl4,
@@ -96,10 +113,11 @@ uint64_t cmi_hashheap_enqueue(struct cmi_hashheap *hp, void *pl1, void *pl2, voi
     __CPROVER_assume(hp->heap_count < CMV_HH_CAP);
     if (CMV_HH_MAY_MOVE()) {
         /* growth: the whole array moves, slot 0 included; the old block is freed */
-        struct cmi_heap_tag *n = malloc((CMV_HH_CAP + 2u) * sizeof(struct cmi_heap_tag));
-        for (unsigned i = 0; i < CMV_HH_CAP + 2u; i++) n[i] = hp->heap[i];
+        struct cmv_hh_block { struct cmi_heap_tag t[CMV_HH_CAP + 2u]; };
+        struct cmv_hh_block *n = malloc(sizeof *n);
+        *n = *(struct cmv_hh_block *)hp->heap;          /* one block copy */
         free(hp->heap);
-        hp->heap = n;
+        hp->heap = n->t;
     }
     hp->item_counter += 1u;
     if (hashkey == 0u) hashkey = hp->item_counter;
@@ -158,11 +176,14 @@ void cmi_hashheap_reprioritize(const struct cmi_hashheap *chp, uint64_t hashkey,
     const uint64_t idx = cmi_hash_find_index(hp, hashkey);
     __CPROVER_assert(hashkey != 0u && idx != 0u, "hashheap contract (release assert in the real code): reprioritize() of a key that is not enqueued");
     __CPROVER_assume(idx != 0u);
-    struct cmi_heap_tag e = *cmv_hh_at(hp, idx);
+    struct cmi_heap_tag *e = cmv_hh_at(hp, idx);
     /* slot 0 is not touched (C02.L3.reprioritize: "slot 0 survives") */
-    e.dsortkey = dsortkey; e.isortkey = isortkey;
-    cmv_hh_delete_at(hp, idx);
-    cmv_hh_insert_sorted(hp, &e);
+    e->dsortkey = dsortkey; e->isortkey = isortkey;
+    if (idx != 1u) {
+        if ((*hp->heap_compare)(e, &hp->heap[1])) { const struct cmi_heap_tag t = hp->heap[1]; hp->heap[1] = *e; *e = t; }
+    } else {
+        cmv_hh_fix_front(hp);
+    }
 }
 
 static bool cmv_hh_match(const struct cmi_heap_tag *t, const void *v1, const void *v2, const void *v3, const void *v4)
